@@ -67,6 +67,16 @@ CLAIMED["C12"] = dict(
    text="Every import-set term of nesting depth <= 3 over a 4-export library (only/except with every subset of the current names, both prefixes, rename with every injective partial map of <= 2 names incl. swaps and chains in both pair orders), with the library supplied natively, as registered source and as a file, and every ordered pair of depth-<=1 terms in one declaration: (import ...) is evaluated in an empty environment of the real interpreter and the resulting bindings must be exactly the name -> export map the algebra yields; each declaration runs on two interpreter instances that must agree.",
    note="hash seeds cannot be enumerated or injected by an add-only hook: two instances per declaration sample that dimension; the term space is exhaustive",
    design="7/C12")
+CLAIMED["C17"] = dict(
+   technique="bounded exhaustive enumeration of program files (form sequences x file variants) run through the built binary, compared with a reference evaluator's output and with in-process evaluation",
+   text="Every program file made of the import line and every sequence of up to 3 (4) forms from an 18-form menu (displays, definitions, silent expressions, multi-line forms, 9 kinds of failing forms) x LF/CRLF x final newline x working directory is run through the built ruschm binary: stdout must be exactly what the reference evaluator displays before the first failing form, the exit status 0 iff no form fails, otherwise non-zero with exactly one diagnostic FILE:LINE:COL MESSAGE whose line lies inside the failing form and whose message is the library interface's; in-process evaluation of the same text must stop at the same form with the same error kind. Missing, directory and non-UTF-8 files must give a diagnostic and a non-zero status.",
+   note="the binary is rebuilt from /repo by check.sh; process-level observation only (stdout, stderr without SGR codes, exit status)",
+   design="7/C17")
+CLAIMED["C18"] = dict(
+   technique="exhaustive sweep of the completeness predicate over all strings up to length 7 (8) through a hook, and exhaustive enumeration of input-line sequences fed to the built REPL binary, against a reference REPL",
+   text="(1) The REPL's completeness test is compared with the reference predicate on every string up to length 7 (8) over a 10-character alphabet (parens, string/bar/char/comment introducers, newline). (2) Every sequence of up to 3 (4) input lines from a 16-fragment menu and every two-line split of four forms at every token gap is piped into the built binary; stdout and stderr must equal the reference REPL's transcript, which cuts submissions with the reference predicate and evaluates them in sequence on one interpreter through the library interface.",
+   note="hook H1 (cfg ruschm_verif) exposes the private completeness test; terminal mode of rustyline is not driven",
+   design="7/C18")
 NOT_YET = "check not built yet (build in progress, see DESIGN.md section 12)"
 NA = {}
 
